@@ -21,6 +21,8 @@ def main():
     from sasmodels.data import Data1D, Data2D
 
     models, kernels, svm = {}, {}, {}
+    graveyard = []
+    classes = {}
 
     def model(name):
         if name not in models:
@@ -120,8 +122,12 @@ def main():
                 from sasmodels.sasview_model import _make_standard_model
                 name = step["model"]
                 tgt = step.get("target", "a")
-                if (name, "a") not in svm or step.get("fresh"):
-                    svm[(name, "a")] = _make_standard_model(name)(*step.get("mult", []))
+                if (name, "a") not in svm or step.get("fresh") or step.get("new_instance"):
+                    if (name, "a") in svm:
+                        graveyard.append(svm[(name, "a")])      # earlier instances stay alive
+                    if name not in classes:
+                        classes[name] = _make_standard_model(name)     # one class per model, as in SasView
+                    svm[(name, "a")] = classes[name](*step.get("mult", []))
                 if step.get("clone"):
                     # the clone becomes object "b"; the original stays alive as "a"
                     svm[(name, "b")] = svm[(name, "a")].clone()
